@@ -74,19 +74,22 @@ func c20BSP(r *enum.R) *c20sdk.Component {
 		return acc
 	}
 	sc := trace.NewSpanContext(trace.SpanContextConfig{TraceID: trace.TraceID{1}, SpanID: trace.SpanID{1}, TraceFlags: trace.FlagsSampled})
-	c.Run = func(ch c20sdk.Choice, alt func(si, src int) *c20sdk.Alt) (res c20sdk.Result) {
+	c.Run = func(ch c20sdk.Choice, alt func(si, src int) *c20sdk.Alt) c20sdk.Result {
+		return c.RunSteps(c20sdk.StepsOf(4, alt))
+	}
+	c.RunSteps = func(steps []c20sdk.Step) (res c20sdk.Result) {
 		var opts []BatchSpanProcessorOption
-		if a := alt(0, 0); a.Present {
-			opts = append(opts, WithMaxQueueSize(int(a.N)))
-		}
-		if a := alt(1, 0); a.Present {
-			opts = append(opts, WithMaxExportBatchSize(int(a.N)))
-		}
-		if a := alt(2, 0); a.Present {
-			opts = append(opts, WithBatchTimeout(time.Duration(a.N)))
-		}
-		if a := alt(3, 0); a.Present {
-			opts = append(opts, WithExportTimeout(time.Duration(a.N)))
+		for _, st := range steps {
+			switch st.Setting {
+			case 0:
+				opts = append(opts, WithMaxQueueSize(int(st.N)))
+			case 1:
+				opts = append(opts, WithMaxExportBatchSize(int(st.N)))
+			case 2:
+				opts = append(opts, WithBatchTimeout(time.Duration(st.N)))
+			case 3:
+				opts = append(opts, WithExportTimeout(time.Duration(st.N)))
+			}
 		}
 		exp := &c20Exporter{}
 		var sp SpanProcessor
@@ -377,6 +380,252 @@ func c20Sampler(r *enum.R) {
 	}
 }
 
+// ---------------------------------------------------------------------------- jobs "order" and "foreign"
+
+// Variables that are no source of the batch SPAN processor: the log batch processor's, the periodic
+// reader's, the exporters' timeouts. Every value is a valid number that differs from every default
+// and every value of the alphabets.
+var c20ForeignBSP = []c20sdk.KV{
+	{"OTEL_BLRP_MAX_QUEUE_SIZE", "333"}, {"OTEL_BLRP_MAX_EXPORT_BATCH_SIZE", "33"}, {"OTEL_BLRP_SCHEDULE_DELAY", "3333"}, {"OTEL_BLRP_EXPORT_TIMEOUT", "4444"},
+	{"OTEL_METRIC_EXPORT_INTERVAL", "3333"}, {"OTEL_METRIC_EXPORT_TIMEOUT", "4444"},
+	{"OTEL_EXPORTER_OTLP_TIMEOUT", "4444"}, {"OTEL_EXPORTER_OTLP_TRACES_TIMEOUT", "4444"},
+	{"OTEL_BSP_QUEUE_SIZE", "333"}, {"OTEL_BSP_MAX_BATCH_SIZE", "33"}, {"OTEL_BSP_BATCH_TIMEOUT", "3333"}, {"OTEL_BSP_TIMEOUT", "4444"}, // near misses
+	{"otel_bsp_max_queue_size", "333"}, {"OTEL_BSP_SCHEDULE_DELAY_MILLIS", "3333"}, {"OTEL_BSP_EXPORT_TIMEOUT_MILLIS", "4444"},
+}
+
+// Variables that are no source of the SPAN limits: the log record limits, near misses.
+var c20ForeignLimits = []c20sdk.KV{
+	{"OTEL_LOGRECORD_ATTRIBUTE_COUNT_LIMIT", "3"}, {"OTEL_LOGRECORD_ATTRIBUTE_VALUE_LENGTH_LIMIT", "3"},
+	{"OTEL_SPAN_ATTRIBUTE_LIMIT", "3"}, {"OTEL_SPAN_ATTRIBUTE_COUNT", "3"}, {"OTEL_SPAN_EVENT_LIMIT", "3"}, {"OTEL_SPAN_LINK_LIMIT", "3"},
+	{"OTEL_EVENT_COUNT_LIMIT", "3"}, {"OTEL_LINK_COUNT_LIMIT", "3"}, {"OTEL_ATTRIBUTE_LIMIT", "3"}, {"OTEL_ATTRIBUTE_VALUE_LIMIT", "3"},
+	{"otel_span_attribute_count_limit", "3"}, {"OTEL_BSP_MAX_QUEUE_SIZE", "3"},
+}
+
+// c20LimitsOrder: two limit options in one option list, every combination of WithRawSpanLimits /
+// WithSpanLimits, both orders of two all-valid structs, plus a deprecated WithSpanLimits with
+// zero fields last ("replaced with the default value for that field"), with the eight
+// variables unset / all set: the provider carries exactly what the LAST option says.
+func c20LimitsOrder(r *enum.R) {
+	vec := func(l SpanLimits) []int {
+		return []int{l.AttributeValueLengthLimit, l.AttributeCountLimit, l.EventCountLimit, l.LinkCountLimit, l.AttributePerEventCountLimit, l.AttributePerLinkCountLimit}
+	}
+	mk := func(b int) SpanLimits {
+		return SpanLimits{AttributeValueLengthLimit: b + 1, AttributeCountLimit: b + 2, EventCountLimit: b + 3, LinkCountLimit: b + 4, AttributePerEventCountLimit: b + 5, AttributePerLinkCountLimit: b + 6}
+	}
+	dflt := SpanLimits{AttributeValueLengthLimit: DefaultAttributeValueLengthLimit, AttributeCountLimit: DefaultAttributeCountLimit, EventCountLimit: DefaultEventCountLimit,
+		LinkCountLimit: DefaultLinkCountLimit, AttributePerEventCountLimit: DefaultAttributePerEventCountLimit, AttributePerLinkCountLimit: DefaultAttributePerLinkCountLimit}
+	type lim struct {
+		name  string
+		sl    SpanLimits
+		raw   bool
+		means SpanLimits
+	}
+	alts := []lim{{"WithRawSpanLimits(a)", mk(10), true, mk(10)}, {"WithRawSpanLimits(b)", mk(20), true, mk(20)},
+		{"WithSpanLimits(a)", mk(10), false, mk(10)}, {"WithSpanLimits(b)", mk(20), false, mk(20)},
+		{"WithRawSpanLimits(zero)", SpanLimits{}, true, SpanLimits{}}, {"WithSpanLimits(zero)", SpanLimits{}, false, dflt}}
+	vars := []string{"OTEL_SPAN_ATTRIBUTE_VALUE_LENGTH_LIMIT", "OTEL_ATTRIBUTE_VALUE_LENGTH_LIMIT", "OTEL_SPAN_ATTRIBUTE_COUNT_LIMIT", "OTEL_ATTRIBUTE_COUNT_LIMIT",
+		"OTEL_SPAN_EVENT_COUNT_LIMIT", "OTEL_SPAN_LINK_COUNT_LIMIT", "OTEL_EVENT_ATTRIBUTE_COUNT_LIMIT", "OTEL_LINK_ATTRIBUTE_COUNT_LIMIT"}
+	r.Bound("order_limits_options", []string{"WithRawSpanLimits(a)", "WithRawSpanLimits(b)", "WithSpanLimits(a)", "WithSpanLimits(b)", "WithRawSpanLimits(zero)", "WithSpanLimits(zero)"})
+	r.Bound("order_limits_lists", "every ordered pair of two different options x {variables unset, all eight set to 7}")
+	for envState := 0; envState <= 1; envState++ {
+		for _, v := range vars {
+			if envState == 1 {
+				os.Setenv(v, "7")
+			} else {
+				os.Unsetenv(v)
+			}
+		}
+		for i, a := range alts {
+			for j, b := range alts {
+				if i == j {
+					continue
+				}
+				if r.Expired() {
+					return
+				}
+				if !r.Want() {
+					continue
+				}
+				r.Count("configuration_points", 1)
+				r.Eval()
+				var got []int
+				pan := ""
+				func() {
+					defer func() {
+						if p := recover(); p != nil {
+							pan = fmt.Sprint(p)
+						}
+					}()
+					var opts []TracerProviderOption
+					for _, l := range []lim{a, b} {
+						if l.raw {
+							opts = append(opts, WithRawSpanLimits(l.sl))
+						} else {
+							opts = append(opts, WithSpanLimits(l.sl))
+						}
+					}
+					tp := NewTracerProvider(opts...)
+					got = vec(tp.spanLimits)
+					tp.Shutdown(context.Background())
+				}()
+				r.Outcome(fmt.Sprint("limits order ", got, pan))
+				cas := map[string]any{"component": "NewTracerProvider", "options": []string{a.name, b.name}, "variables": []string{"unset", "all eight = 7"}[envState], "effective": got, "panic": pan, "reference": vec(b.means)}
+				r.Sample(func() any { return cas })
+				if pan != "" {
+					r.FailHere("panic|NewTracerProvider|order span limits", cas, "NewTracerProvider(%s, %s) panicked: %s", a.name, b.name, pan)
+				} else if fmt.Sprint(got) != fmt.Sprint(vec(b.means)) {
+					kind := map[bool]string{true: "WithRawSpanLimits", false: "WithSpanLimits"}
+					r.FailHere("order|NewTracerProvider|"+kind[a.raw]+","+kind[b.raw], cas, "NewTracerProvider(%s, %s): effective span limits %v, the last option asks for %v", a.name, b.name, got, vec(b.means))
+				}
+			}
+		}
+	}
+	for _, v := range vars {
+		os.Unsetenv(v)
+	}
+}
+
+// c20SamplerOrder: WithSampler twice (and with a nil in every position: "nil" provides nothing)
+// x OTEL_TRACES_SAMPLER {unset, always_off, traceidratio + 0.25}: the last non-nil sampler wins.
+func c20SamplerOrder(r *enum.R) {
+	a, b := NeverSample(), TraceIDRatioBased(0.5)
+	type so struct {
+		name string
+		s    Sampler
+	}
+	A, B, N := so{"WithSampler(never)", a}, so{"WithSampler(ratio 0.5)", b}, so{"WithSampler(nil)", nil}
+	lists := [][]so{{A, B}, {B, A}, {A, N}, {N, A}, {A, B, N}, {A, N, B}, {N, A, B}, {B, A, N}}
+	envs := []map[string]string{{}, {"OTEL_TRACES_SAMPLER": "always_off"}, {"OTEL_TRACES_SAMPLER": "traceidratio", "OTEL_TRACES_SAMPLER_ARG": "0.25"}}
+	r.Bound("order_sampler_lists", len(lists))
+	r.Bound("order_sampler_env_states", len(envs))
+	for _, env := range envs {
+		for _, k := range []string{"OTEL_TRACES_SAMPLER", "OTEL_TRACES_SAMPLER_ARG"} {
+			if v, ok := env[k]; ok {
+				os.Setenv(k, v)
+			} else {
+				os.Unsetenv(k)
+			}
+		}
+		for _, l := range lists {
+			if r.Expired() {
+				return
+			}
+			if !r.Want() {
+				continue
+			}
+			r.Count("configuration_points", 1)
+			r.Eval()
+			var opts []TracerProviderOption
+			var names []string
+			var want Sampler
+			for _, o := range l {
+				opts = append(opts, WithSampler(o.s))
+				names = append(names, o.name)
+				if o.s != nil {
+					want = o.s
+				}
+			}
+			got, pan := "", ""
+			func() {
+				defer func() {
+					if p := recover(); p != nil {
+						pan = fmt.Sprint(p)
+					}
+				}()
+				tp := NewTracerProvider(opts...)
+				got = c20SamplerSig(tp.sampler)
+				tp.Shutdown(context.Background())
+			}()
+			r.Outcome("sampler order " + got + pan)
+			cas := map[string]any{"component": "NewTracerProvider(sampler)", "options": names, "environment": env, "effective": got, "panic": pan, "reference": c20SamplerSig(want)}
+			r.Sample(func() any { return cas })
+			if pan != "" {
+				r.FailHere("panic|NewTracerProvider(sampler)|order", cas, "NewTracerProvider(%v) panicked: %s", names, pan)
+			} else if got != c20SamplerSig(want) {
+				r.FailHere("order|NewTracerProvider(sampler)|WithSampler,WithSampler", cas, "NewTracerProvider(%v) with %v: effective sampler %s, the last non-nil option asks for %s", names, env, got, c20SamplerSig(want))
+			}
+		}
+	}
+	os.Unsetenv("OTEL_TRACES_SAMPLER")
+	os.Unsetenv("OTEL_TRACES_SAMPLER_ARG")
+}
+
+// c20SamplerForeign: variables that are no source of the sampler, set to sampler names / ratios,
+// for the bases {nothing set, OTEL_TRACES_SAMPLER=traceidratio + ARG=0.25, always_off, WithSampler}.
+func c20SamplerForeign(r *enum.R) {
+	foreign := []c20sdk.KV{{"OTEL_TRACE_SAMPLER", "always_off"}, {"OTEL_SAMPLER", "always_off"}, {"OTEL_TRACES_SAMPLER_NAME", "always_off"}, {"OTEL_LOGS_SAMPLER", "always_off"},
+		{"OTEL_METRICS_SAMPLER", "always_off"}, {"otel_traces_sampler", "always_off"}, {"OTEL_TRACES_SAMPLER_RATIO", "0"}, {"OTEL_TRACES_SAMPLER_ARGS", "0"},
+		{"OTEL_TRACE_SAMPLER_ARG", "0"}, {"OTEL_SAMPLER_ARG", "0"}, {"OTEL_METRICS_EXEMPLAR_FILTER", "always_off"}, {"OTEL_TRACES_EXPORTER", "none"}}
+	type base struct {
+		name string
+		env  map[string]string
+		opt  Sampler
+	}
+	bases := []base{{"nothing set", nil, nil}, {"traceidratio 0.25", map[string]string{"OTEL_TRACES_SAMPLER": "traceidratio", "OTEL_TRACES_SAMPLER_ARG": "0.25"}, nil},
+		{"parentbased_always_off", map[string]string{"OTEL_TRACES_SAMPLER": "parentbased_always_off"}, nil}, {"WithSampler(ratio 0.5)", nil, TraceIDRatioBased(0.5)}}
+	var names []string
+	for _, f := range foreign {
+		names = append(names, f.Name+"="+f.Value)
+	}
+	r.Bound("foreign_variables(sampler)", names)
+	run := func(b base) string {
+		r.Eval()
+		var opts []TracerProviderOption
+		if b.opt != nil {
+			opts = append(opts, WithSampler(b.opt))
+		}
+		got := ""
+		func() {
+			defer func() {
+				if p := recover(); p != nil {
+					got = "panic: " + fmt.Sprint(p)
+				}
+			}()
+			tp := NewTracerProvider(opts...)
+			got = c20SamplerSig(tp.sampler)
+			tp.Shutdown(context.Background())
+		}()
+		return got
+	}
+	for _, b := range bases {
+		for _, k := range []string{"OTEL_TRACES_SAMPLER", "OTEL_TRACES_SAMPLER_ARG"} {
+			if v, ok := b.env[k]; ok {
+				os.Setenv(k, v)
+			} else {
+				os.Unsetenv(k)
+			}
+		}
+		got0 := run(b)
+		check := func(set []c20sdk.KV, keyName string) {
+			if r.Expired() || !r.Want() {
+				return
+			}
+			r.Count("configuration_points", 1)
+			env := map[string]string{}
+			for _, v := range set {
+				os.Setenv(v.Name, v.Value)
+				env[v.Name] = v.Value
+			}
+			got := run(b)
+			for _, v := range set {
+				os.Unsetenv(v.Name)
+			}
+			r.Outcome("sampler foreign " + got)
+			cas := map[string]any{"component": "NewTracerProvider(sampler)", "base_configuration": b.name, "foreign": env, "effective": got, "effective_without": got0}
+			r.Sample(func() any { return cas })
+			if got != got0 {
+				r.FailHere("foreign|NewTracerProvider(sampler)|"+keyName, cas, "NewTracerProvider (%s): setting %v changes the sampler: %s, without it %s", b.name, env, got, got0)
+			}
+		}
+		for _, f := range foreign {
+			check([]c20sdk.KV{f}, f.Name)
+		}
+		check(foreign, "all foreign variables at once")
+	}
+	os.Unsetenv("OTEL_TRACES_SAMPLER")
+	os.Unsetenv("OTEL_TRACES_SAMPLER_ARG")
+}
+
 // ---------------------------------------------------------------------------- test
 
 func TestVerifC20(t *testing.T) {
@@ -384,7 +633,7 @@ func TestVerifC20(t *testing.T) {
 	otel.SetLogger(logr.Discard())
 	log.SetOutput(io.Discard)
 	bspShards := c20sdk.New(nil, c20BSP(nil)).Shards(2)
-	jobs := []string{"limits:none", "limits:raw", "limits:legacy", "sampler"}
+	jobs := []string{"limits:none", "limits:raw", "limits:legacy", "sampler", "order", "foreign"}
 	for i := range bspShards {
 		jobs = append(jobs, fmt.Sprintf("bsp:%02d", i))
 	}
@@ -395,6 +644,22 @@ func TestVerifC20(t *testing.T) {
 		r.Section(job)
 		r.Bound("value_classes", "option {absent, valid, zero, negative[, huge]} x env {absent, valid, valid2, zero, negative, non-numeric, huge, empty}")
 		switch {
+		case job == "order":
+			r.Section("order:bsp")
+			c20sdk.New(r, c20BSP(r)).Order()
+			r.Section("order:limits")
+			c20LimitsOrder(r)
+			r.Section("order:sampler")
+			c20SamplerOrder(r)
+		case job == "foreign":
+			r.Section("foreign:bsp")
+			c20sdk.New(r, c20BSP(r)).Foreign(c20ForeignBSP)
+			for _, mode := range []string{"none", "raw", "legacy"} {
+				r.Section("foreign:limits:" + mode)
+				c20sdk.New(r, c20Limits(mode)).Foreign(c20ForeignLimits)
+			}
+			r.Section("foreign:sampler")
+			c20SamplerForeign(r)
 		case job == "sampler":
 			c20Sampler(r)
 		case strings.HasPrefix(job, "bsp:"):
